@@ -416,10 +416,15 @@ def parallel(fn, jobs, nproc=None):
         for j in jobs:
             yield fn(j)
         return
+    # (ProcessPoolExecutor, not multiprocessing.Pool: when a worker process dies - e.g. killed by the kernel for want of memory -
+    # a Pool silently replaces it and waits for the lost job for ever; the executor raises BrokenProcessPool, which ends the
+    # check as a harness failure, exit status 2)
+    import concurrent.futures
     ctx = multiprocessing.get_context('fork')
-    with ctx.Pool(min(nproc, len(jobs))) as pool:
-        for r in pool.imap_unordered(fn, jobs):
-            yield r
+    with concurrent.futures.ProcessPoolExecutor(max_workers=min(nproc, len(jobs)), mp_context=ctx) as pool:
+        futs = [pool.submit(fn, j) for j in jobs]
+        for f in concurrent.futures.as_completed(futs):
+            yield f.result()
 
 
 def nt_hash(*parts):
